@@ -412,6 +412,13 @@ func BuildFileIndexFromJournal(path string, journal *ast.Journal) *FileIndex {
 }
 
 func resolveIncludePaths(basePath string, includes []ast.Include) []string {
+	resolved := includePathsInOrder(basePath, includes)
+	sort.Strings(resolved)
+	return resolved
+}
+
+// includePathsInOrder resolves include directives to paths in the order they are written.
+func includePathsInOrder(basePath string, includes []ast.Include) []string {
 	if len(includes) == 0 {
 		return nil
 	}
@@ -447,7 +454,6 @@ func resolveIncludePaths(basePath string, includes []ast.Include) []string {
 			resolved = append(resolved, resolvedPath)
 		}
 	}
-	sort.Strings(resolved)
 	return resolved
 }
 
